@@ -347,10 +347,11 @@ fn decode_case(c: &mut Ctx, family: &str, kind: &str, bytes: &[u8]) {
             c.obs(&format!("bytes {}", r));
             let re = e.tagged_cbor().to_cbor_data();
             let exact = re == bytes;
-            let alias = !exact && parsed.as_ref().map(|cb| legacy_norm(cb).to_cbor_data() == re).unwrap_or(false);
+            let alias = !exact && parsed.as_ref().map(|cb| cb.to_cbor_data() == bytes && legacy_norm(cb).to_cbor_data() == re).unwrap_or(false);
             if alias { c.count("decode:legacy-alias"); }
             let why = match &g { Err(m) => m.clone(), Ok(()) => "grammar ok".into() };
-            let key = if why.contains("ascending") { "accepts-misordered" } else if why.contains("repeated") { "accepts-repeated" }
+            let dcbor_alias = parsed.as_ref().map(|cb| cb.to_cbor_data() != bytes).unwrap_or(false);
+            let key = if dcbor_alias { "dcbor-noncanonical-number-accepted" } else if why.contains("ascending") { "accepts-misordered" } else if why.contains("repeated") { "accepts-repeated" }
                 else if why.starts_with("encrypted") { "accepts-bad-encrypted" } else if why.starts_with("compressed") { "accepts-bad-compressed" }
                 else { "accepts-noncanonical" };
             c.check("reencode-exact", exact || alias, key, || format!("decode accepted {} ({}; mutation {}) but re-encodes to {}", hx, why, kind, hex::encode(&re)));
